@@ -11,6 +11,7 @@ import (
 type Query struct {
 	Ob    *Oblig
 	Text  string
+	Focused string // same query with the quantified hypotheses of other clause families hidden ("" if none); unsat is conclusive
 	Decls []string // declared incarnations (for model extraction)
 	IncOf map[string]string // IVL variable -> incarnation visible at the assertion
 }
@@ -20,9 +21,14 @@ type passBlock struct {
 	out     string            // Bool const: block left normally
 	incIn   map[string]int    // incarnation at entry
 	incOut  map[string]int    // incarnation at exit
-	lines   []string          // declarations and assertions of this block
+	lines   []pline           // declarations and assertions of this block
 	queries []*pendingQuery
 	preds   []*Block
+}
+
+// pline: one line of the passive program; alt replaces it when hypotheses of family tag are hidden.
+type pline struct {
+	text, tag, alt string
 }
 
 type pendingQuery struct {
@@ -104,7 +110,7 @@ func generateVCs(p *Prog, f *FuncIVL) ([]*Query, error) {
 				reachDef = "(or " + strings.Join(outs, " ") + ")"
 			}
 		}
-		pb.lines = append(pb.lines, fmt.Sprintf("(define-fun %s () Bool %s)", pb.reach, reachDef))
+		pb.lines = append(pb.lines, plineOf("(define-fun %s () Bool %s)", pb.reach, reachDef))
 		// merge incarnations
 		if len(ps) == 1 {
 			for k, v := range pbs[ps[0].ID].incOut {
@@ -139,9 +145,9 @@ func generateVCs(p *Prog, f *FuncIVL) ([]*Query, error) {
 				n := counter[v]
 				pb.incIn[v] = n
 				srt := f.Vars[v]
-				pb.lines = append(pb.lines, fmt.Sprintf("(declare-const %s %s)", smtName(incName(v, n)), srt))
+				pb.lines = append(pb.lines, plineOf("(declare-const %s %s)", smtName(incName(v, n)), srt))
 				for _, q := range ps {
-					pb.lines = append(pb.lines, fmt.Sprintf("(assert (=> %s (= %s %s)))", edge(q),
+					pb.lines = append(pb.lines, plineOf("(assert (=> %s (= %s %s)))", edge(q),
 						smtName(incName(v, n)), smtName(incName(v, pbs[q.ID].incOut[v]))))
 				}
 			}
@@ -164,8 +170,8 @@ func generateVCs(p *Prog, f *FuncIVL) ([]*Query, error) {
 				if srt == "" {
 					return nil, fmt.Errorf("%s: variable %s has no sort", f.Key, s.Var)
 				}
-				pb.lines = append(pb.lines, fmt.Sprintf("(declare-const %s %s)", smtName(incName(s.Var, n)), srt))
-				pb.lines = append(pb.lines, fmt.Sprintf("(assert (= %s %s))", smtName(incName(s.Var, n)), sb.String()))
+				pb.lines = append(pb.lines, plineOf("(declare-const %s %s)", smtName(incName(s.Var, n)), srt))
+				pb.lines = append(pb.lines, plineOf("(assert (= %s %s))", smtName(incName(s.Var, n)), sb.String()))
 				cur[s.Var] = n
 			case SHavoc:
 				counter[s.Var]++
@@ -174,14 +180,19 @@ func generateVCs(p *Prog, f *FuncIVL) ([]*Query, error) {
 				if srt == "" {
 					return nil, fmt.Errorf("%s: variable %s has no sort", f.Key, s.Var)
 				}
-				pb.lines = append(pb.lines, fmt.Sprintf("(declare-const %s %s)", smtName(incName(s.Var, n)), srt))
+				pb.lines = append(pb.lines, plineOf("(declare-const %s %s)", smtName(incName(s.Var, n)), srt))
 				cur[s.Var] = n
 			case SAssume:
 				var sb strings.Builder
 				s.E.Print(&sb, incFn)
 				condN++
 				cn := fmt.Sprintf("$C%d_%d", b.ID, condN)
-				pb.lines = append(pb.lines, fmt.Sprintf("(define-fun %s () Bool (and %s %s))", cn, cond, sb.String()))
+				ln := plineOf("(define-fun %s () Bool (and %s %s))", cn, cond, sb.String())
+				if s.Tag != "" && hasQuantifier(s.E) {
+					ln.tag = s.Tag
+					ln.alt = fmt.Sprintf("(define-fun %s () Bool %s)", cn, cond)
+				}
+				pb.lines = append(pb.lines, ln)
 				cond = cn
 			case SAssert:
 				var sb strings.Builder
@@ -195,14 +206,19 @@ func generateVCs(p *Prog, f *FuncIVL) ([]*Query, error) {
 					// assert-then-assume
 					condN++
 					cn := fmt.Sprintf("$C%d_%d", b.ID, condN)
-					pb.lines = append(pb.lines, fmt.Sprintf("(define-fun %s () Bool (and %s %s))", cn, cond, sb.String()))
+					ln := plineOf("(define-fun %s () Bool (and %s %s))", cn, cond, sb.String())
+					if s.Ob.Tag != "" && hasQuantifier(s.E) {
+						ln.tag = s.Ob.Tag
+						ln.alt = fmt.Sprintf("(define-fun %s () Bool %s)", cn, cond)
+					}
+					pb.lines = append(pb.lines, ln)
 					cond = cn
 				}
 			default:
 				return nil, fmt.Errorf("%s: pseudo statement not expanded", f.Key)
 			}
 		}
-		pb.lines = append(pb.lines, fmt.Sprintf("(define-fun %s () Bool %s)", pb.out, cond))
+		pb.lines = append(pb.lines, plineOf("(define-fun %s () Bool %s)", pb.out, cond))
 		pb.incOut = cur
 		pb.preds = ps
 	}
@@ -258,20 +274,32 @@ func generateVCs(p *Prog, f *FuncIVL) ([]*Query, error) {
 			ancIDs = append(ancIDs, k)
 		}
 		sort.Slice(ancIDs, func(i, j int) bool { return pos[ancIDs[i]] < pos[ancIDs[j]] })
-		var pre strings.Builder
-		pre.WriteString(header)
+		var preLines []pline
 		for _, id := range ancIDs {
-			for _, ln := range pbs[id].lines {
-				pre.WriteString(ln)
-				pre.WriteString("\n")
-			}
+			preLines = append(preLines, pbs[id].lines...)
 		}
-		for _, q := range pb.queries {
+		assemble := func(q *pendingQuery, focus string) (string, bool) {
 			var sb strings.Builder
-			sb.WriteString(pre.String())
-			for _, ln := range pb.lines[:q.lineN] {
-				sb.WriteString(ln)
+			sb.WriteString(header)
+			hidden := false
+			keep := map[string]bool{focus: true}
+			for _, u := range q.ob.Uses {
+				keep[u] = true
+			}
+			put := func(ln pline) {
+				if focus != "" && ln.tag != "" && !keep[ln.tag] {
+					sb.WriteString(ln.alt)
+					hidden = true
+				} else {
+					sb.WriteString(ln.text)
+				}
 				sb.WriteString("\n")
+			}
+			for _, ln := range preLines {
+				put(ln)
+			}
+			for _, ln := range pb.lines[:q.lineN] {
+				put(ln)
 			}
 			if q.ob.Cover || q.ob.Canary {
 				fmt.Fprintf(&sb, "(assert %s)\n", q.cond)
@@ -279,14 +307,28 @@ func generateVCs(p *Prog, f *FuncIVL) ([]*Query, error) {
 				fmt.Fprintf(&sb, "(assert %s)\n(assert (not %s))\n", q.cond, q.goal)
 			}
 			sb.WriteString("(check-sat)\n")
+			return sb.String(), hidden
+		}
+		for _, q := range pb.queries {
+			text, _ := assemble(q, "")
 			incOf := map[string]string{}
 			for k, v := range q.inc {
 				incOf[k] = incName(k, v)
 			}
-			queries = append(queries, &Query{Ob: q.ob, Text: sb.String(), IncOf: incOf})
+			qq := &Query{Ob: q.ob, Text: text, IncOf: incOf}
+			if q.ob.Tag != "" && !q.ob.Cover && !q.ob.Canary {
+				if ft, hid := assemble(q, q.ob.Tag); hid {
+					qq.Focused = ft
+				}
+			}
+			queries = append(queries, qq)
 		}
 	}
 	return queries, nil
+}
+
+func plineOf(format string, a ...interface{}) pline {
+	return pline{text: fmt.Sprintf(format, a...)}
 }
 
 func topoOrder(f *FuncIVL) ([]*Block, error) {
@@ -318,4 +360,19 @@ func topoOrder(f *FuncIVL) ([]*Block, error) {
 		order[i], order[j] = order[j], order[i]
 	}
 	return order, nil
+}
+
+func hasQuantifier(t *Term) bool {
+	if t == nil {
+		return false
+	}
+	if t.Op == "forall" || t.Op == "exists" {
+		return true
+	}
+	for _, a := range t.Args {
+		if hasQuantifier(a) {
+			return true
+		}
+	}
+	return false
 }
